@@ -169,6 +169,18 @@ class Interp(object):
                     break
         elif isinstance(st, ast.For):
             it = self.eval(st.iter, env)
+            if getattr(self, 'concrete_loops', False) and isinstance(it, (list, tuple)) and len(it) <= 64 and not st.orelse and \
+                    all(isinstance(x, (int, str, bytes, float, type(None))) for x in it):
+                # the iterable folded to concrete constants: the loop is its unrolling
+                for x in it:
+                    self.assign(st.target, x, env)
+                    try:
+                        self.block(st.body, env)
+                    except _Continue:
+                        continue
+                    except _Break:
+                        break
+                return
             if isinstance(it, TriVal):
                 if it.state == NONE:
                     raise _Raise('TypeError', st)
